@@ -29,6 +29,47 @@ HEADS = {"insert", "remove", "drop", "remove_all", "update", "update_all", "sear
          "k", "m", "t", "s", "n", "none", "static", "call", "points", "point", "nat", "bool", "sel", "strs", "tagvals", "nums", "times", "unit", "raise"}
 
 
+def stamp_tie(ck, seed, n):
+    """the float stamps the index stores (index._timestamps after inserting points at the instants) are bit for bit Stamp.stamp of the instant"""
+    import random
+    from datetime import datetime, timedelta, timezone
+    tf = use_impl()
+    from tinyflux.storages import MemoryStorage
+    rng = random.Random(seed * 7919 + 8)
+    lo, hi = -8520336000000000, 8520336000000000
+    inst = {lo, lo + 1, hi - 1, hi, -1, 0, 1}
+    for k in range(54):
+        for c in (2 ** k * 10 ** 6, -2 ** k * 10 ** 6, 2 ** k, -2 ** k):
+            inst.update(c + d for d in range(-2, 3))
+    while len(inst) < n:
+        inst.add(rng.randint(lo, hi) if rng.random() < 0.7 else rng.randint(-10 ** rng.randint(1, 15), 10 ** rng.randint(1, 15)))
+    inst = sorted(t for t in inst if lo <= t <= hi)
+    rng.shuffle(inst)
+    epoch = datetime(1970, 1, 1, tzinfo=timezone.utc)
+    db = tf.TinyFlux(storage=MemoryStorage)
+    db.insert_multiple([tf.Point(time=epoch + timedelta(microseconds=t), tags={"i": str(i)}) for i, t in enumerate(inst)])
+    db.reindex()
+    stored = getattr(db.index, "_timestamps", None)
+    pairs = []
+    if stored is not None and len(stored) == len(inst):
+        pairs = list(zip(sorted(inst), [float(x).hex() for x in stored]))          # the index keeps its stamps in time order
+    else:
+        pairs = [(t, (epoch + timedelta(microseconds=t)).timestamp().hex()) for t in sorted(inst)]
+    def lit(h):
+        return f"({h})%float" if h.startswith("-") else f"{h}%float"
+    f = ck.work / "cases_c08_stamp.v"
+    f.write_text("From Coq Require Import List ZArith Floats.\nFrom TF Require Import Stamp.\nImport ListNotations.\nOpen Scope Z_scope.\n"
+                 "Definition same (a b : float) : bool := PrimFloat.eqb a b && PrimFloat.eqb (PrimFloat.div 1 a) (PrimFloat.div 1 b).\n"
+                 "Definition cases : list (Z * float) := [\n" + ";\n".join(f"(({t}), {lit(h)})" for t, h in pairs) + "].\n"
+                 "Eval vm_compute in map fst (filter (fun c => negb (same (stamp (fst c)) (snd c))) cases).\n")
+    rc, out = coqc_file(f, timeout=900)
+    bad = parse_nat_list(out) if rc == 0 else None
+    if bad is None:
+        return len(pairs), [], out[-800:]
+    d = dict(pairs)
+    return len(pairs), [(t, d.get(t)) for t in bad], None
+
+
 def main(tier, seed):
     ck = Check("C08", tier, seed)
     b = ck.build_proofs("Prop_C08", extra_targets=["Run.vo"])
@@ -70,8 +111,15 @@ def main(tier, seed):
         for j in range(0, len(nums), 2):
             divergences.append((base + nums[j], nums[j + 1]))
     spec_bad, spec_checked = dbtie.direct_oracle(cases)
+    stamp_n, stamp_bad, stamp_err = stamp_tie(ck, seed, 1500 if tier == "quick" else 12000)
     if not b["ok"]:
         ck.violation({"kind": "proof-broken", "what_no_longer_checks": f"Prop_C08.v {b['theorems']}", "log": b["log"][-1500:], "forbidden": b["forbidden"]}, no_input=True)
+    if stamp_err:
+        ck.violation({"kind": "model-evaluation-failed", "what_no_longer_checks": "cases_c08_stamp.v (Stamp.stamp vs the float stamps the index stores)", "log": stamp_err}, no_input=True)
+    for us, impl_hex in stamp_bad[:1]:
+        ck.violation({"kind": "correspondence-broken", "instant_us": us, "index_stores": impl_hex,
+                      "what_no_longer_checks": "Stamp.stamp (one correctly rounded binary64 division of the microsecond count by 10^6) vs the float the index stores for that instant "
+                                               "(theorem C08_float_stamps_order_instants speaks about Stamp.stamp)"}, no_input=True)
     for z, err in failed_workers:
         ck.violation({"kind": "harness-failed", "what_no_longer_checks": f"worker process for TZ={z}", "log": err}, no_input=True)
     for name, tail in failed:
@@ -111,6 +159,9 @@ def main(tier, seed):
                 "(stamp checked against the harness's clock reads); plus ordinary histories; every step compared with the model and with the documented meaning; "
                 "non-trivial = the history updates a time",
         "representations_by_zone": dict(kinds), "zones": ZONES,
+        "float_stamps_compared_bit_for_bit": stamp_n, "float_stamp_mismatches": len(stamp_bad),
+        "float_stamp_rule": "points at the range ends, +-2^k seconds and +-2^k microseconds (+-2 us around each) and random instants are inserted; the floats the index then holds "
+                            "(index._timestamps) must equal Stamp.stamp of the instant bit for bit (compared inside Coq against hexadecimal float literals)",
         "steps_compared_with_documented_meaning": spec_checked, "documented_meaning_mismatches": len(spec_bad),
         "traces_validated_against_impl": len(cases) - len({ci for ci, _ in divergences}),
         "samples": [{"TZ": zone_of[0], "ops": cases[0][2][:3]}] if cases else [],
